@@ -126,6 +126,11 @@ std::vector<ImportSourcePtr>::const_iterator Importer::ImporterImpl::findImportS
     if (importSource == nullptr) {
         return mImports.end();
     }
+    // The import source itself, if it is in the list; otherwise one that equals it.
+    auto result = std::find(mImports.begin(), mImports.end(), importSource);
+    if (result != mImports.end()) {
+        return result;
+    }
     return std::find_if(mImports.begin(), mImports.end(),
                         [=](const ImportSourcePtr &importSrc) -> bool { return importSource->equals(importSrc); });
 }
